@@ -6,7 +6,7 @@ from .. import common, build, lean, check, script
 MODULE = "Dbus.Props.C20"
 THEOREMS = ["step_refines", "tree_refines_set", "dispatch_order_eq_spec", "invoke_stops_at_first_taker",
             "error_choice_structural", "below_fallback_found", "registered_found", "no_dead_branch", "children_eq_spec"]
-NAMES = ["a", "aa", "a_", "ab", "b", "B", "_", "a0", "z"]
+NAMES = ["a", "aa", "a_", "ab", "b", "B", "_", "a0", "z", "2", "10", "9", "a10", "a9", "02", "1_", "10a"]      # (digit runs: an order that is not byte order is a classic slip)
 
 
 def rpath(rng, known):
@@ -73,7 +73,7 @@ def run(ctx):
     for _ in range(ncases):
         starts.append(len(ops))
         ops += gen_case(rng, nid)
-    res = script.diff([exe], ops)
+    res = script.diff([exe], ops, timeout=90 if ctx.quick() else 900)
     ok = res["rc"] == 0 and res["n_impl"] == res["n_model"] == len(ops)
     if not ok:
         ctx.violate("object-tree harness aborted or lost sync (rc=%s, %d/%d/%d lines)" % (res["rc"], res["n_impl"], res["n_model"], len(ops)),
@@ -128,7 +128,7 @@ def replay(path):
     exe = build.cc("h_tree", ["harness/lib/h_tree.c"]); lean.build_driver()
     if ops[0] != "tree reset":
         ops = ["tree reset"] + ops
-    res = script.diff([exe], ops)
+    res = script.diff([exe], ops, timeout=90 if ctx.quick() else 900)
     for r in res["rows"]:
         print("op %d %s: impl=%s model=%s spec=%s" % r)
     bad = [r for r in res["rows"] if r[2] != r[3]] or res["rc"] != 0
